@@ -1,6 +1,7 @@
 package main
 
 import (
+	"fmt"
 	"strings"
 	"sort"
 
@@ -12,13 +13,32 @@ func init() {
 		ID: "C16",
 		Decides: "(R16.1) validator/importer agreement: every manifest-consistency validation the repository's block validator (IsValidBlockFromLocalFS) reaches is also reached by the block importer's WriteItem/Save; the importer validates every operation, state and voteproof it stores; " +
 			"(R16.2) IsValidVoteproofsWithManifest succeeds only for voteproofs of the manifest's height and one point, with an ACCEPT MAJORITY whose new block equals the manifest hash; the tree-with-manifest validators compare the tree root with the manifest's root, the element count, duplicates and membership; the proposal validator compares height and fact hash; " +
-			"(R16.3) an imported item is accepted only if its checksum equals the block map's, an item is marked finished only after it was imported, and Save requires all items finished; (R16.4) the block validator itself applies all of its checks before success.",
+			"(R16.3) an imported item is accepted only if its checksum equals the block map's, an item is marked finished only after it was imported, and Save requires all items finished; (R16.4) the block validator itself applies all of its checks before success.; (R16.5) a voteproofs item yields exactly one INIT and one ACCEPT voteproof: a slot is filled only while empty and under a lock",
 		NotDecided: "equality of what the importer stores with what the validator reads back for all inputs; the decoders (C27); signature cryptography.",
 		Run:        runC16,
 	})
 }
 
 func runC16(c *Ctx) {
+	// R16.5: what the importer and the validator look at is what the item holds: a voteproofs item yields one
+	// INIT and one ACCEPT voteproof, a second one of a kind is refused (the lines are decoded by concurrent workers)
+	c.Rule("R16.5", "MustPass")
+	if parent := c.Need("isaac/block.(*ItemReader).decodeVoteproofs"); parent != nil {
+		n := 0
+		for _, f := range WithClosures(parent) {
+			for k := 0; k < 2; k++ {
+				slot := fmt.Sprintf("var:vps[%d]", k)
+				sts := c.StoresD(f, "&"+slot)
+				if len(sts) == 0 {
+					continue
+				}
+				n += len(sts)
+				c.MP(f, fmt.Sprintf("voteproof slot %d is filled only while it is empty", k), sts, 1, GNil(slot))
+				c.Held(f, nil, fmt.Sprintf("voteproof slot %d is filled under a lock (concurrent line decoders)", k), sts, 1, "&*", LW)
+			}
+		}
+		c.Floor(parent, "voteproof slot stores", n, 2)
+	}
 	// R16.1 -----------------------------------------------------------------------------------
 	c.Rule("R16.1", "SiblingAgreement")
 	validator := c.Need("isaac/block.IsValidBlockFromLocalFS")
